@@ -623,6 +623,12 @@ def e1(rep, F, flt=None):
         if json.dumps(t) != json.dumps(spec[path]["t"]) and not same_text(t, spec[path]["t"]):
             # pieces that differ; a piece the extractor could not interpret (an unknown item kind, an unresolved
             # local, a helper the reference does not know) makes the comparison undecided, not a violation
+            rw, who = decide.rewritten(F, path)
+            if rw:
+                r["undecided"] = r.get("undecided", 0) + 1
+                rep.notes.append("E1: %s (%s) differs from the reviewed version in %d statements / conditions: "
+                                 "restructured, comparison with the reference undecided" % (path, who, rw))
+                continue
             fa, fb = set(_flat(t)), set(_flat(spec[path]["t"]))
             diff = (fa - fb) | (fb - fa)
             vocab = _vocab(spec)
